@@ -35,7 +35,7 @@
    NOT covered: the stack-height limiter (differential runs only), instructions outside the subset
    (br_table, call_indirect, memory.grow, i32 arithmetic), trapping runs (only `>=` is checked by
    the harness there). *)
-From Coq Require Import List ZArith Bool.
+From Coq Require Import List ZArith Bool String.
 Import ListNotations.
 Require Import RV.Model.C46_MiniWasm RV.Model.C46_Meter RV.Proof.C46_MiniWasm RV.Proof.C46_Meter RV.Gen.C46_weights.
 Open Scope Z_scope.
@@ -126,6 +126,15 @@ Proof. split; [reflexivity|]. split; [reflexivity|]. vm_compute. eexists. repeat
 Theorem C46_generated_costs_nonneg : (forall i, 0 <= c46_cost i) /\ 0 <= c46_per_local.
 Proof. split; [intro i; destruct i; try destruct o; vm_compute; discriminate|vm_compute; discriminate]. Qed.
 
+(* every operator the validator admits is charged: the only free ones are the four that do no work
+   of their own (unreachable traps, else / end are markers, return's work is the callee's epilogue) *)
+Theorem C46_every_instruction_charged :
+  forallb (fun nc => (0 <? snd nc) ||
+                     existsb (String.eqb (fst nc)) ["Unreachable"; "Else"; "End"; "Return"]%string)
+          c46_all_costs = true
+  /\ (100 <=? Z.of_nat (List.length c46_all_costs)) = true.
+Proof. split; vm_compute; reflexivity. Qed.
+
 (* non-vacuity: a metered loop summing 3+2+1 with a division; the instrumented and the erased
    program return 6; with a budget one unit short the instrumented one runs out of gas; dividing
    by zero traps in both *)
@@ -155,3 +164,4 @@ Print Assumptions C46_cost_covers_path.
 Print Assumptions C46_cost_is_path_cost_except_known.
 Print Assumptions C46_cost_is_path_cost_refuted.
 Print Assumptions C46_generated_costs_nonneg.
+Print Assumptions C46_every_instruction_charged.
